@@ -374,7 +374,7 @@ def _build():
         "C08",
         "exploration",
         "seeded template worlds (TMPL-SIM): a concrete program from the SEQ-SIM actors with numeric positions lifted into variable expressions (+ - * / // % **, neg abs sqrt exp cos tanh, array items/slices); history = builds of the template in seeded order (repeats included), failing builds (missing / wrong-size / invalidating values), str / to_abstract_repr in between, builds of switch_register / switch_device siblings sharing the Variable objects, cache flushes, restarts of the template; every build is compared with direct construction (same calls, numpy-evaluated values), the template's fingerprint must never change; mappable registers: mapping to chosen traps in declared order; non-trivial = >=2 variables, >=1 expression in the program and >=3 builds; distinct = distinct (program, variables, history)",
-        {"mappable_p": 0.3, "lift_p": 0.5, "hist_len": 10, "only_prefix": "C08"},
+        {"mappable_p": 0.3, "lift_p": 0.5, "hist_len": 10, "only_prefix": "C08", "sibling_extend_p": 0.5, "tight_atom_num_p": 0.2},
         runs={"quick": 2500, "thorough": 60000},
         assumptions=["direct evaluation uses numpy float64 arithmetic (the same IEEE operations the library applies)", "calls the template itself refused when they were issued are not part of either side"],
         expected_probes=["repeated_build", "failing_build_mid_replay", "sibling_build"],
